@@ -50,7 +50,7 @@ fn info(tier: Tier) -> CheckInfo {
             "flume channels are FIFO".into(),
         ],
     };
-    ci.rule.push_str(" Added: the live part with one or two earlier callers that take one item and drop their stream, and through the blocking Dht API.");
+    ci.rule.push_str(" Added: the live part with one or two earlier callers that take one item and drop their stream, and through the blocking Dht API. The live lookups are also run for a salted item (alone, and while the node's own put of that salted item is in flight).");
     ci
 }
 
@@ -202,19 +202,20 @@ const VERSIONS: [Option<(i64, &[u8])>; 5] = [None, Some((1, b"a")), Some((2, b"a
 /// mode 0: plain; 1 / 2: the node's own put_mutable of an OLDER item (seq 0) for the same key
 /// is in flight and one / two of the three replicas have already answered its lookup when the
 /// call is made, so the call joins that still-active lookup.
-fn live(assign: &[usize; 3], order: usize, mode: usize, sync: bool, out: &mut Partial) {
+fn live(assign: &[usize; 3], order: usize, mode: usize, sync: bool, salted: bool, out: &mut Partial) {
     use crate::epnet::EpNet;
     use crate::explore::Chooser;
     use crate::sim::*;
     let sk = signing_key(7);
     let pk = sk.verifying_key().to_bytes();
-    let target = crate::krpc::mutable_target(&pk, None);
+    let salt: Option<&[u8]> = if salted { Some(b"c16 salt") } else { None };
+    let target = crate::krpc::mutable_target(&pk, salt);
     let mut w = World::new(Chooser::default_run());
     let ids = crate::epnet::ranked_ids(&target, 3);
     let mut net = EpNet::new(&mut w, &ids);
     for (i, a) in assign.iter().enumerate() {
         if let Some((seq, val)) = VERSIONS[*a] {
-            net.eps[i].mutable.insert(target, (pk, seq, val.to_vec(), crate::krpc::sign_mutable(&sk, seq, val, None).to_vec()));
+            net.eps[i].mutable.insert(target, (pk, seq, val.to_vec(), crate::krpc::sign_mutable(&sk, seq, val, salt).to_vec()));
         }
     }
     let boots = net.addrs();
@@ -253,7 +254,7 @@ fn live(assign: &[usize; 3], order: usize, mode: usize, sync: bool, out: &mut Pa
         for e in net.eps.iter_mut() {
             e.store_puts = false;
         }
-        let own = dht::MutableItem::new(&sk, b"mine (older)", 0, None);
+        let own = dht::MutableItem::new(&sk, b"mine (older)", 0, salt);
         let _ = w.call_put_mutable(a, own, None);
         // until `mode` of the three replicas' answers to the put's lookup have reached the node
         let mut arrived = 0;
@@ -283,7 +284,7 @@ fn live(assign: &[usize; 3], order: usize, mode: usize, sync: bool, out: &mut Pa
     if mode >= 3 {
         // one (mode 3) or two (mode 4) earlier callers use the `get_mutable(..).next()` pattern:
         // they take the first item and drop their stream while the lookup is still running
-        let firsts: Vec<usize> = (0..mode - 2).map(|_| w.call_get_mutable_first(a, pk, None)).collect();
+        let firsts: Vec<usize> = (0..mode - 2).map(|_| w.call_get_mutable_first(a, pk, salt.map(|s| s.to_vec()))).collect();
         let h = w.now + 30 * SEC;
         w.run_until(h, |w, ev| {
             pump(w, &mut net, ev, &rank);
@@ -291,7 +292,7 @@ fn live(assign: &[usize; 3], order: usize, mode: usize, sync: bool, out: &mut Pa
         });
         out.add("live_with_dropped_co_callers", 1);
     }
-    let call = w.call_get_mutable_most_recent(a, pk, None);
+    let call = w.call_get_mutable_most_recent(a, pk, salt.map(|s| s.to_vec()));
     let h = w.now + 30 * SEC;
     w.run_until(h, |w, ev| {
         if let Event::EndpointRecv { ep, dgram } = ev {
@@ -319,7 +320,7 @@ fn live(assign: &[usize; 3], order: usize, mode: usize, sync: bool, out: &mut Pa
     let got = match w.result(call) {
         Some(CallResult::Mutable(r)) => r.as_ref().map(|i| (i.seq(), i.value().to_vec())),
         other => {
-            out.violation("most-recent/live/no-result", format!("{other:?}"), json!({"part": "live", "assign": assign, "order": order, "mode": mode, "sync": sync}));
+            out.violation("most-recent/live/no-result", format!("{other:?}"), json!({"part": "live", "assign": assign, "order": order, "mode": mode, "sync": sync, "salted": salted}));
             return;
         }
     };
@@ -334,9 +335,9 @@ fn live(assign: &[usize; 3], order: usize, mode: usize, sync: bool, out: &mut Pa
             _ => "some-for-nothing",
         };
         out.violation(
-            format!("most-recent/live/{class}{}", ["", "/own-put-in-flight", "/own-put-in-flight", "/co-caller-dropped-its-stream", "/co-caller-dropped-its-stream"][mode]),
+            format!("most-recent/live/{class}{}{}", ["", "/own-put-in-flight", "/own-put-in-flight", "/co-caller-dropped-its-stream", "/co-caller-dropped-its-stream"][mode], if salted { "/salted" } else { "" }),
             format!("{}replicas hold {held:?} (arrival order #{order}); get_mutable_most_recent returned {got:?}, expected {want:?}", if sync { "[blocking Dht API] " } else { "" }),
-            json!({"part": "live", "assign": assign, "order": order, "mode": mode, "sync": sync}),
+            json!({"part": "live", "assign": assign, "order": order, "mode": mode, "sync": sync, "salted": salted}),
         );
     }
 }
@@ -380,10 +381,11 @@ fn run(tier: Tier, shard: usize, nshards: usize, _seed: u64) -> Partial {
     for c in 0..125usize {
         let assign = [c % 5, (c / 5) % 5, (c / 25) % 5];
         for order in 0..6 {
-            for (mode, sync) in [(0, false), (1, false), (2, false), (3, false), (4, false), (0, true), (3, true)] {
+            for (mode, sync, salted) in [(0, false, false), (1, false, false), (2, false, false), (3, false, false), (4, false, false), (0, true, false), (3, true, false), (0, false, true), (1, false, true), (2, true, true)] {
                 unit += 1;
                 if unit % nshards == shard {
-                    live(&assign, order, mode, sync, &mut merged);
+                    live(&assign, order, mode, sync, salted, &mut merged);
+                    merged.add("live_salted", salted as u64);
                 }
             }
         }
@@ -403,7 +405,7 @@ fn replay(v: &Value) -> Result<Option<Violation>, String> {
         if a.len() != 3 {
             return Err("assign".into());
         }
-        live(&[a[0], a[1], a[2]], v.get("order").and_then(|o| o.as_u64()).unwrap_or(0) as usize, v.get("mode").and_then(|o| o.as_u64()).unwrap_or(0) as usize, v.get("sync").and_then(|o| o.as_bool()).unwrap_or(false), &mut out);
+        live(&[a[0], a[1], a[2]], v.get("order").and_then(|o| o.as_u64()).unwrap_or(0) as usize, v.get("mode").and_then(|o| o.as_u64()).unwrap_or(0) as usize, v.get("sync").and_then(|o| o.as_bool()).unwrap_or(false), v.get("salted").and_then(|o| o.as_bool()).unwrap_or(false), &mut out);
         return Ok(out.violations.into_iter().next());
     }
     crate::sim::enter_local(crate::sim::T0, 1);
